@@ -52,7 +52,10 @@ ParseModule(f) ==
 DomEdit   == Rec([op |-> "domedit"]) /\ UNCHANGED <<mode, amode, parser, pref>>
 MQEdit    == Rec([op |-> "mqedit"]) /\ UNCHANGED <<mode, amode, parser, pref>>
 Serialize == Rec([op |-> "serialize"]) /\ UNCHANGED <<mode, amode, parser, pref>>
-Combine(f) == Rec([op |-> "combine", fault |-> f]) /\ UNCHANGED <<mode, amode, parser, pref>>
+\* csscombine works with a private serializer: whatever its arguments, the user's serializer and preferences stay as they are
+Combine(f, m, rv) == Rec([op |-> "combine", fault |-> f, minify |-> m, resolve |-> rv]) /\ UNCHANGED <<mode, amode, parser, pref>>
+\* a tokenizer built with its own macros (a compiled-production cache sits behind it): later tokenizers must not see it
+CustomTokenizer(v) == Rec([op |-> "tokenizer", macros |-> v]) /\ UNCHANGED <<mode, amode, parser, pref>>
 SetPref(v) == Rec([op |-> "setpref", v |-> v]) /\ pref' = v /\ UNCHANGED <<mode, amode, parser>>
 Probe     == Rec([op |-> "probe"]) /\ UNCHANGED <<mode, amode, parser, pref>>
 
@@ -63,7 +66,8 @@ Next == \/ \E p \in Parsers, r \in BOOLEAN : NewParser(p, r)
         \/ \E p \in Parsers, e \in Entries \ {"module"}, f \in Faults : Parse(p, e, f)
         \/ \E f \in Faults : ParseModule(f)
         \/ DomEdit \/ MQEdit \/ Serialize \/ Probe
-        \/ \E f \in {"none", "missingfile"} : Combine(f)
+        \/ \E f \in {"none", "missingfile"}, m \in BOOLEAN, rv \in BOOLEAN : Combine(f, m, rv)
+        \/ \E v \in {"A", "B"} : CustomTokenizer(v)
         \/ \E v \in {"default", "minified", "nocomments"} : SetPref(v)
 Spec == Init /\ [][Next]_vars
 View == <<mode, amode, parser, pref>>
